@@ -19,6 +19,18 @@ theorem C20_no_connect_no_write_after_close (cfg : Cfg) (st : St) (env : Env) (e
     (step cfg st env e).1.closing = true ∧ ∀ o ∈ (step cfg st env e).2, o.connects = false :=
   step_closing cfg st env e h hb
 
+/-- … and for ever: from a closed state in which no bootstrap connection attempt is awaited, NO sequence
+    of later events (late replies, connection-closed notifications in any order, timers, new
+    operations, another close) makes the client connect, create a broker client, write a bootstrap
+    request or issue a request — the two facts are preserved by every step. -/
+theorem C20_closed_for_ever (cfg : Cfg) (st : St) (h : st.closing = true) (hb : NoBootConn st)
+    (pre : List (Env × Ev)) (e : Env × Ev) :
+    let st' := pre.foldl (fun s x => (step cfg s x.1 x.2).1) st
+    (∀ o ∈ (step cfg st' e.1 e.2).2, o.connects = false) ∧
+    (∀ env ev, (step cfg st env ev).1.closing = true ∧ NoBootConn (step cfg st env ev).1) :=
+  ⟨closed_forever cfg (pre ++ [e]) st h hb pre e [] rfl,
+   fun env ev => ⟨(step_closing cfg st env ev h hb).1, step_closing_nbc cfg st env ev h hb⟩⟩
+
 /-- The same for every synchronous action of the machine: once closing, nothing in any callback chain
     connects or issues a request (this is what makes the operations pending at close fail instead of
     falling through to another broker or to the bootstrap hosts — the fix of F13). -/
@@ -79,6 +91,7 @@ end Afkak.Props.C20
 
 /- OBLIGATIONS
 C20_no_connect_no_write_after_close
+C20_closed_for_ever
 C20_no_connect_in_any_callback
 C20_metadata_cleared
 C20_new_ops_fail
